@@ -347,6 +347,9 @@ func (c *Client) Mail(from string) error {
 	if err := validateLine(from); err != nil {
 		return err
 	}
+	if err := validatePath(from); err != nil {
+		return err
+	}
 	if err := c.hello(); err != nil {
 		return err
 	}
@@ -376,6 +379,9 @@ func (c *Client) Mail(from string) error {
 // a [Client.Data] call or another Rcpt call.
 func (c *Client) Rcpt(to string) error {
 	if err := validateLine(to); err != nil {
+		return err
+	}
+	if err := validatePath(to); err != nil {
 		return err
 	}
 
@@ -666,6 +672,16 @@ func (c *Client) debugLog(d log.Direction, f string, a ...interface{}) {
 func validateLine(line string) error {
 	if strings.ContainsAny(line, "\n\r") {
 		return errors.New("smtp: A line must not contain CR or LF")
+	}
+	return nil
+}
+
+// validatePath checks that an address can be put between the angle brackets of a MAIL FROM or
+// RCPT TO command as it is. Addresses that would need quoting are refused instead of being sent
+// unquoted, where a blank or an angle bracket would add arguments to the command line.
+func validatePath(addr string) error {
+	if strings.ContainsAny(addr, " \t<>") {
+		return errors.New("smtp: address contains characters that require quoting")
 	}
 	return nil
 }
